@@ -21,7 +21,8 @@ namespace BitSerializer
 	{
 	public:
 		explicit SerializationContext(const SerializationOptions& serializationOptions)
-			: mSerializationOptions(serializationOptions)
+			: mUncaughtExceptions(std::uncaught_exceptions())
+			, mSerializationOptions(serializationOptions)
 		{ }
 
 		[[nodiscard]] const SerializationOptions& GetOptions() const noexcept {
@@ -46,12 +47,24 @@ namespace BitSerializer
 
 		/// <summary>
 		/// Keeps an error that was detected where it cannot be thrown (e.g. in the destructor of an archive scope),
-		/// it will be thrown from `OnFinishSerialization()`. Only the first error is kept.
+		/// it will be thrown from `OnFinishSerialization()`. Only the first error is kept, and an error that shows up
+		/// while another exception is already being propagated is dropped (it is a consequence of that one).
 		/// </summary>
 		void DeferException(std::exception_ptr exception) noexcept
 		{
-			if (!mDeferredException) {
+			if (!mDeferredException && std::uncaught_exceptions() == mUncaughtExceptions) {
 				mDeferredException = std::move(exception);
+			}
+		}
+
+		/// <summary>
+		/// Should be called from the handler when serialization was interrupted by an exception: an error that was
+		/// deferred earlier is the first one, so it is thrown instead (later errors are usually just its consequences).
+		/// </summary>
+		void OnFailedSerialization()
+		{
+			if (mDeferredException) {
+				std::rethrow_exception(std::exchange(mDeferredException, nullptr));
 			}
 		}
 
@@ -86,6 +99,7 @@ namespace BitSerializer
 		StringsVariant mStringValueBuffer;
 		ValidationMap mErrorsMap;
 		std::exception_ptr mDeferredException;
+		int mUncaughtExceptions;
 		const SerializationOptions& mSerializationOptions;
 	};
 }
